@@ -71,7 +71,10 @@ def chain(seed, k, tier):
 
 def family(seed, tier):
     n = 5 if tier == "quick" else 15
-    return [(lambda s: (s.s["name"], s.doc()))(chain(seed, k, tier)) for k in range(n)]
+    docs = [(lambda s: (s.s["name"], s.doc()))(chain(seed, k, tier)) for k in range(n)]
+    g = scen.snapshot_gap_chain(seed, name="c14-snapgap")
+    docs.append((g.s["name"], g.doc()))
+    return docs
 
 
 def main():
